@@ -188,3 +188,16 @@ func concatNameParts(parts ...[]ast.Vertex) string {
 	}
 	return str
 }
+
+// bad (item-independence): the kind chosen for one element is kept for the elements after it
+func kindsOf(list []ast.Vertex) []string {
+	var out []string
+	kind := ""
+	for _, t := range list {
+		if _, ok := t.(*ast.NameFullyQualified); ok {
+			kind = "function"
+		}
+		out = append(out, kind)
+	}
+	return out
+}
